@@ -9,25 +9,40 @@ spec/C07/LocalShared.tla      M-spec of distsys/resources/localshared.go (timed 
                               every edge with walks, c07drv forces each walk on real MakeLocalShared() resources
 spec/C07/LocalSharedTrace.tla M-level trace spec (conformance of the gated recordings; rejection = model drift)
 harness/cmd/c07drv            gated replay + free-running stress on the real LocalSharedManager under the real Run
+
+"Dying sharer" family (added after seed C07-A): a section may end in a fatal error (the body returns a failed assertion;
+MPCalContext.Run returns it without Commit/Abort and closes the archetype's resources). Model: action EndDie, bounded by
+MaxDie (0 in the older configurations); TxnSer: NoDirtyRead, SoloProgress not demanded for what a dead sharer took with it;
+driver: step "die" (walks of the GenDie* graphs, directed cases), DiePct in stress cases.
 """
 import collections
 import concurrent.futures
 import json
 import os
 import random
+import re
 
 import vcommon as V
 
 ID = "C07"
 
-DESIGN_QUICK = ["MCDesignA", "MCDesignB"]
-DESIGN_THOROUGH = ["MCDesignA", "MCDesignB", "MCDesignE", "MCDesignD", "MCDesignC"]
+# MCDesignDie*: MaxDie = 1 (one sharer may die inside a section; pinned tree: it keeps its locks for ever);
+# MCDesignDieRestore: Close() restores and releases -- a different design that preserves the property as well
+DESIGN_QUICK = ["MCDesignA", "MCDesignB", "MCDesignDieA"]
+DESIGN_THOROUGH = ["MCDesignA", "MCDesignB", "MCDesignDieA", "MCDesignE", "MCDesignD", "MCDesignC", "MCDesignDieE",
+                   "MCDesignDieB", "MCDesignDieRestore"]
 MUTANTS = [("MCMutNoTimeout", "Deadlock"), ("MCMutReleaseEarly", "Serializable"),
-           ("MCMutNoRestore", "QuiescentAgree"), ("MCMutCommitLeak", "NoLeak")]
-# generator graphs: (cfg, family, NA, LockOf, full cover in quick?)
-GENS = [("GenFin2x12", "fin", 2, [1, 2], True), ("GenFin2x112", "fin", 2, [1, 1, 2], True),
-        ("GenLong2x12", "long", 2, [1, 2], True), ("GenFin3x12", "fin", 3, [1, 2], False),
-        ("GenLong3x112", "long", 3, [1, 1, 2], False), ("GenFin3x123", "fin", 3, [1, 2, 3], False)]
+           ("MCMutNoRestore", "QuiescentAgree"), ("MCMutCommitLeak", "NoLeak"),
+           ("MCMutCloseRelease", "Serializable")]          # Close() releases without restoring (= seed C07-A)
+MUTANTS_THOROUGH = [("MCMutCloseReleaseQ", "QuiescentAgree")]
+# generator graphs: (cfg, family, NA, LockOf, full cover in quick?, walks through a death in quick / thorough)
+# The GenDie* graphs (MaxDie = 1) contain the graphs of the same configuration without deaths (GenFin*.cfg, kept for
+# reference) as the part in which nobody has died; both parts are covered, separately.
+GENS = [("GenDie2x12", "fin", 2, [1, 2], True, (None, None)), ("GenDie2x112", "fin", 2, [1, 1, 2], True, (30, None)),
+        ("GenLong2x12", "long", 2, [1, 2], True, (0, 0)), ("GenDie3x12", "fin", 3, [1, 2], False, (8, 60)),
+        ("GenLong3x112", "long", 3, [1, 1, 2], False, (0, 0)), ("GenFin3x123", "fin", 3, [1, 2, 3], False, (0, 0))]
+# short JVM runs: C1 only and two GC threads cost about half the CPU time of the defaults
+JVM = ["-XX:TieredStopAtLevel=1", "-XX:ParallelGCThreads=2"]
 KINDS1 = ["plain", "pers", "map", "fn", "mappers", "mapfn", "persfn"]   # managers guarding one cell
 KINDSN = ["fn", "mapfn", "persfn"]                                      # function-valued variables
 FIN_TIMEOUTS = [20, 30, 0, 20, 40, 5]   # ms; 0 = the constructor's default (50 ms)
@@ -37,9 +52,12 @@ LONG_TIMEOUT = 4000
 # --------------------------------------------------------------------------- graph -> walks
 
 class Graph:
-    def __init__(self, path):
+    def __init__(self, path, nodead=False):
+        """nodead: the part of the graph in which no sharer has died (= the graph of the same
+        configuration with MaxDie = 0: a death is never undone, so nothing leads back into it)"""
         self.sid, self.edges, self.out = {}, [], collections.defaultdict(list)
         self.init, self.idle = None, set()
+        self.dead_edges = set()      # the death itself and whatever happens after it
         with open(path) as f:
             for line in f:
                 line = line.strip()
@@ -48,7 +66,12 @@ class Graph:
                 e = json.loads(line)
                 if isinstance(e, str):
                     e = json.loads(e)
+                after_death = e["act"]["t"] == "die" or '"dead"' in e["from"]
+                if nodead and after_death:
+                    continue
                 a, b = self._id(e["from"]), self._id(e["to"])
+                if after_death:
+                    self.dead_edges.add(len(self.edges))
                 if self.init is None:       # TLC ran with one worker: the first edge leaves the initial state
                     self.init = a
                     self.idle.add(a)
@@ -96,8 +119,8 @@ class Graph:
                 todo.append(b)
         return None
 
-    def cover(self, rng, max_len, max_walks=None):
-        uncovered = set(self.usable)
+    def cover(self, rng, max_len, max_walks=None, only=None):
+        uncovered = set(k for k in self.usable if only is None or k in only)
         fresh_out = collections.defaultdict(set)
         for k in uncovered:
             fresh_out[self.edges[k][0]].add(k)
@@ -132,17 +155,34 @@ class Graph:
                 break
         return walks, len(uncovered)
 
-    def random_walk(self, rng, n):
-        cur, walk = self.init, []
+    def random_walk(self, rng, n, die_after=None):
+        """die_after = k: nobody dies during the first k steps, then the first sharer that can die
+        holding a variable does (if one gets there before the walk is over), and the walk goes on"""
+        cur, walk, died = self.init, [], False
         while len(walk) < n:
             ks = [k for k in self.out[cur] if self.edges[k][1] in self.live]
+            if die_after is not None and not died:
+                dies = [k for k in ks if self.edges[k][2]["t"] == "die"]
+                ks = [k for k in ks if self.edges[k][2]["t"] != "die"]
+                if len(walk) >= die_after:
+                    # the dying sharer has accessed something (its nops > 0 <=> it holds a lock)
+                    dies = [k for k in dies if self._holds(cur, self.edges[k][2]["a"])]
+                    if dies:
+                        ks = dies
             if not ks:
                 break
             k = rng.choice(ks)
+            died = died or self.edges[k][2]["t"] == "die"
             walk.append(k)
             cur = self.edges[k][1]
         walk += self.path_to(cur, lambda s: s in self.idle) or []
         return walk
+
+    def _holds(self, state, a):
+        if not hasattr(self, "_names"):
+            self._names = {v: k for k, v in self.sid.items()}
+        m = re.match(r"<<<<([0-9, ]*)>>", self._names[state])      # the lock vector comes first
+        return bool(m) and str(a) in [x.strip() for x in m.group(1).split(",")]
 
 
 def concretize(g, walk, cid, fam, na, lockof, rng, salt):
@@ -171,7 +211,70 @@ def concretize(g, walk, cid, fam, na, lockof, rng, salt):
             "timeout_ms": timeout, "steps": steps, "probes": 3}
 
 
-def stress_case(cid, rng, bank):
+def directed_die_cases(rng, salt):
+    """Hand-written walks around a death (written as the MODEL of the pinned tree expects them: a survivor that needs a
+    variable the dead sharer took with it waits and is refused; the driver records whatever really happens)."""
+    def B(a): return {"t": "begin", "a": a}
+    def A(a, k, c, v=0): return {"t": "acc", "a": a, "k": k, "c": c, "v": v}
+    def W(a, k, c, v=0): return {"t": "block", "a": a, "k": k, "c": c, "v": v}
+    def T(a): return {"t": "timeout", "a": a}
+    def E(a, how="commit"): return {"t": "end", "a": a, "how": how}
+    def D(a): return {"t": "die", "a": a}
+    def O(m): return {"t": "obs", "m": m}
+    def OA(m): return {"t": "obsa", "m": m}
+    plans = [
+        # dies after writing x; a survivor reads x (refused), then reads and writes y and commits
+        ("die-wx", 2, [1, 2], False,
+         [B(1), A(1, "w", 1, 1001), D(1), B(2), W(2, "r", 1), T(2), B(2), A(2, "r", 2), A(2, "w", 2, 2001), E(2), O(2)]),
+        # dies after writing x and y; one survivor wants y then x, another writes x
+        ("die-wxy", 3, [1, 2], False,
+         [B(2), A(2, "w", 1, 2001), A(2, "w", 2, 2002), E(2), B(1), A(1, "r", 1), A(1, "w", 1, 1001), A(1, "w", 2, 1002), D(1),
+          B(2), W(2, "r", 2), T(2), B(3), W(3, "w", 1, 3001), T(3), B(2), W(2, "r", 1), T(2)]),
+        # a survivor holds y, then needs x which the dead sharer took: it is refused and its write of y is undone
+        ("die-wx-survivor-holds-y", 2, [1, 2], False,
+         [B(1), A(1, "w", 1, 1001), B(2), A(2, "w", 2, 2001), D(1), W(2, "r", 1), T(2), O(2), B(2), A(2, "r", 2), E(2)]),
+        # a survivor is already waiting for x when its holder dies
+        ("die-waiter", 2, [1, 2], False,
+         [B(1), A(1, "r", 1), A(1, "w", 1, 1001), B(2), A(2, "r", 2), W(2, "r", 1), D(1), T(2), B(2), A(2, "w", 2, 2001), E(2)]),
+        # GetState() through a survivor is queued behind the section when its sharer dies
+        ("die-getstate", 2, [1, 2], False,
+         [B(1), A(1, "w", 1, 1001), OA(1), D(1), B(2), A(2, "r", 2), E(2), O(2)]),
+        # function-valued variable: dies after updating one element
+        ("die-fn", 2, [1, 1, 2], False,
+         [B(1), A(1, "r", 1), A(1, "w", 2, 1001), D(1), B(2), A(2, "r", 3), W(2, "r", 2), T(2), B(2), A(2, "w", 3, 2001), E(2)]),
+        # bank: 3 has left x and not reached y when the sharer dies; a survivor audits (y first, then x)
+        ("die-bank", 2, [1, 2], True,
+         [B(2), A(2, "r", 1), A(2, "r", 2), E(2), B(1), A(1, "r", 1), A(1, "r", 2), A(1, "w", 1, 97), D(1),
+          B(2), A(2, "r", 2), W(2, "r", 1), T(2)]),
+        # bank, both cells written (the sum holds, the section never committed)
+        ("die-bank-both", 2, [1, 2], True,
+         [B(1), A(1, "r", 1), A(1, "r", 2), A(1, "w", 1, 95), A(1, "w", 2, 105), D(1), B(2), W(2, "r", 1), T(2)]),
+    ]
+    out = []
+    for i, (name, na, lockof, bank, steps) in enumerate(plans):
+        for rep_ in range(2):
+            salt += 1
+            nm = max(lockof)
+            kinds = []
+            for m in range(1, nm + 1):
+                ncell = sum(1 for x in lockof if x == m)
+                pool = KINDS1 if ncell == 1 else KINDSN
+                kinds.append(pool[(salt + 3 * m + rep_) % len(pool)])
+            out.append({"id": "%s-%d" % (name, rep_), "mode": "gated", "fam": "fin", "na": na, "lockof": lockof, "kinds": kinds,
+                        "init": [100] * len(lockof) if bank else [10 * (c + 1) for c in range(len(lockof))],
+                        "timeout_ms": [20, 10, 0, 30][(salt + i) % 4], "steps": steps, "probes": 3, "bank": bank})
+    return out, salt
+
+
+def stress_case(cid, rng, bank, die=False):
+    if die:
+        # a sharer that has written dies inside its section; the survivors can only be refused what it took with it,
+        # so their attempts are few and the timeouts short
+        c = stress_case(cid, rng, bank)
+        c["fam"] += "-die"
+        c["timeout_ms"] = rng.choice([5, 10])
+        c["stress"].update({"die_pct": rng.choice([10, 20, 35]), "max_die": 1, "max_att": 40, "commits": rng.choice([4, 6])})
+        return c
     na = rng.choice([2, 3, 4, 5, 8])
     lockof = rng.choice([[1, 2], [1, 2, 3], [1, 1, 2], [1, 2, 2, 3], [1, 1], [1, 2, 3, 4]])
     nm = max(lockof)
@@ -202,7 +305,8 @@ def run(chk):
     # ---- 1. design level (exhaustive) + vacuity guards + generator graphs, in parallel
     design = DESIGN_QUICK if quick else DESIGN_THOROUGH
     gens = [g for g in GENS if (not quick) or g[4] or g[0] == "GenFin3x12"]
-    jobs = [("design", c) for c in design] + [("mut", c) for c, _ in MUTANTS]
+    mutants = MUTANTS + ([] if quick else MUTANTS_THOROUGH)
+    jobs = [("design", c) for c in design] + [("mut", c) for c, _ in mutants]
     if not replay_case:
         jobs += [("gen", g[0]) for g in gens]
 
@@ -211,9 +315,10 @@ def run(chk):
         d = os.path.join(chk.tmp, "tlc-" + cfg)
         V.copy_specs(work, d)
         if kind == "gen":
-            return job, V.tlc(d, "MCLocalShared", cfg=cfg + ".cfg", workers=1, timeout=2400, deadlock=False), d
+            return job, V.tlc(d, "MCLocalShared", cfg=cfg + ".cfg", workers=1, timeout=2400, deadlock=False, jvm=JVM), d
         return job, V.tlc(d, "MCLocalShared", cfg=cfg + ".cfg", workers=4 if kind == "design" else 2,
-                          timeout=3000 if kind == "design" else 900, deadlock=True), d
+                          timeout=3000 if kind == "design" else 900, deadlock=True,
+                          jvm=JVM if quick or kind == "mut" else None), d
 
     results = {}
     with concurrent.futures.ThreadPoolExecutor(max_workers=len(jobs)) as ex:
@@ -224,16 +329,19 @@ def run(chk):
         res, _ = results[("design", c)]
         chk.add_tlc("%s exhaustive: timed 2PL => Serializable, QuiescentAgree, NoLeak, NoIndefiniteBlock, no deadlock" % c, res)
         all_ok = all_ok and res.ok
+        if res.violation:
+            # a counterexample on a model alone is never a verdict; it says the model (or the design) is off
+            chk.inconclusive.append("design model %s violates %s" % (c, res.violation))
     chk.exhaustive = all_ok
-    expected = dict(MUTANTS)
-    for c, _ in MUTANTS:
+    expected = dict(mutants)
+    for c, _ in mutants:
         res, _ = results[("mut", c)]
         chk.tlc_jobs.append(res.summary("%s (vacuity guard: broken design must violate %s)" % (c, expected[c])))
         if res.timed_out or res.error:
             chk.inconclusive.append("vacuity guard %s did not run: %s" % (c, res.error or "timeout"))
         elif not (res.violation and expected[c] in res.violation):
             chk.inconclusive.append("vacuity guard %s: the broken design was not rejected by %s (%s)" % (c, expected[c], res.violation))
-    chk.notes["vacuity_guards_rejected"] = [c for c, _ in MUTANTS if results[("mut", c)][0].violation]
+    chk.notes["vacuity_guards_rejected"] = [c for c, _ in mutants if results[("mut", c)][0].violation]
 
     # ---- 2. cases
     cases = []
